@@ -276,6 +276,10 @@ def comb_div_comb(c1, c2):
     return c1.mul(c2.ds, c2.ns)
 def comb_times_frac(c, f):
     n, d = get_ratio(f)
+    if n == 0:
+        # A zero factor must not be kept as a range: it could cancel
+        # against another zero (0/0) or end up in a denominator.
+        return 0
     return c.mul([] if n == 1 else [IntRange(n, n)],
                  [] if d == 1 else [IntRange(d, d)])
 def get_ratio(f):
